@@ -122,7 +122,7 @@ PROPS = {
                        "happens); goroutine scheduling of the engine is exercised by the harness but not modelled. The proof is about the "
                        "model; the code is covered as far as the correspondence run explores (reported in evidence)."),
         "technique": "Lean 4 proof (induction over snapshot scripts / status lists, nested-inductive equivalence) + differential correspondence against the real Go code",
-        "domains": ["aggregate", "rsequal", "poll", "pollcache", "collector", "podctl", "readstatus"],
+        "domains": ["aggregate", "rsequal", "poll", "pollcache", "cachereader", "dynreader", "collector", "podctl", "readstatus"],
         "rule": ("aggregate: EVERY list of the 6 statuses of length <= 4 (quick) / <= 5 (thorough) x every desired status through the real "
                  "AggregateStatus, plus random lists of length 6..25; rsequal: generated pairs of ResourceStatus trees (clone / one-field "
                  "mutation anywhere in the tree incl. nil-resource vs generation 0, error present/absent/text, generated list length and order "
@@ -134,7 +134,19 @@ PROPS = {
                  "status reader (mapper lookup, Get, status function) over every combination of outcomes and error kinds; pollcache: the real "
                  "polling.NewStatusPoller (engine + default CachingClusterReader + default status readers) whose context is cancelled / times out "
                  "while the k-th LIST of the cluster reader is in flight (k = 0..8, context error returned bare, wrapped in *url.Error or with %w) or "
-                 "between two polls: the channel must close without an error event. Non-trivial: aggregate "
+                 "between two polls: the channel must close without an error event; cachereader: the real "
+                 "clusterreader.NewCachingClusterReader over a scripted client.Reader and RESTMapper, driven through scripts of sync / get / "
+                 "listns / listcluster operations (1-3 identifiers incl. Deployment / StatefulSet / ReplicaSet so that generated kinds are "
+                 "tracked, root-scoped kinds, a CRD kind whose mapping appears later; 1-4 Syncs with changing cluster content and mapper "
+                 "table; per (GroupKind, LIST namespace) the LIST ends ok in 1..n pages (the reader honours Limit / Continue), or its k-th page "
+                 "request fails with an other / NotFound / Expired error or a context error (bare, *url.Error-wrapped, %w-wrapped, or a real "
+                 "cancellation), or the context is cancelled while a page request succeeds; reads of tracked, generated and untracked pairs with "
+                 "selectors everything / equality / inequality / existence / a label nobody has / nothing, before the first Sync and after failed "
+                 "Syncs), plus a fixed grid: content A, then content B with ONE LIST of the second Sync disturbed in every way, all pairs read after "
+                 "each Sync; dynreader: the real clusterreader.DynamicClusterReader (the status watcher's reader) over client-go's fake dynamic "
+                 "client: scripts of put / delete / make-GET-or-LIST-fail operations interleaved with get / listns / listcluster, every read "
+                 "must answer the CURRENT content (a labels.Nothing() selector is compared with the model only: it travels as \"\" and selects "
+                 "everything). Non-trivial: aggregate "
                  "lists of length >= 2, poll scripts with >= 2 polls and >= 1 id, collector streams with >= 2 events; distinct = distinct canonical input JSON."),
         "exhaustive_quick": False,
         "explanation": ("Theorems (CliUtils.Props.C17): aggregate_rule, aggregate_perm_invariant, aggregate_set_invariant, rsEqual_equivalence, "
@@ -495,7 +507,7 @@ PROPS["C03"] = _sys("C03", [],
     "Spec predicate: after every run without error event: applied objects live+annotated, completed deletes gone, stored inventory = formula from "
     "the observed events; an identical clean re-apply sends no effective create/delete and leaves the inventory unchanged; destroy leaves nothing managed.",
     ["a create answered AlreadyExists (the idempotent creation of the inventory namespace) is not counted as a create request of a fixpoint run"])
-PROPS["C11"] = _sys("C11", ["depgraph"],
+PROPS["C11"] = _sys("C11", ["depgraph", "scope"],
     "Theorems: every invalid id is named in a validation error (invalid_named); no task of any plan — inventory-add, apply, prune, wait — names "
     "an invalid id, so none is ever sent or merged into the inventory (plan_excludes_invalid, merged_ids_valid); under exit-early a run with "
     "validation errors makes no mutating request and emits only the error event (exit_early_no_mutation, for every cluster and run); objects "
@@ -529,3 +541,30 @@ PROPS["C13"] = _sys("C13", ["print"],
     "stream of the real implementation; channel closure, hangs (20 s watchdog) and requests after close are observed by the harness.",
     "Spec predicate: stream accepted by the grammar for its own plan event, channel closed, no request after close, no hang / panic.",
     ["closure of the Go channel and absence of late goroutines are observed, not proved"])
+
+PROPS["C11"]["level_text"] += (
+    " Scope / namespace validation (Props/C11S.lean, over ALL mapper answers and CRD lists of any length and shape): the RESTMapper's answer "
+    "wins whatever the CRDs say (mapper_hit_decides); for well-formed CRD lists a type is unknown iff the mapper answers NoMatch and no CRD has its "
+    "group+kind or the first such CRD lacks the version, and its scope is that of the first such CRD (lookup_wellformed, unknown_type_iff, crd_scope); "
+    "a CRD that cannot be read fails the lookup even if a later CRD defines the type (malformed_crd_errors); Validate collects nothing for an object "
+    "iff kind and name are set, the scope is known and the namespace agrees with it, every defect is named and nothing else is "
+    "(validate_valid_iff, validate_names_every_defect, validate_only_real_defects); InvalidIds = the ids named in the collected errors "
+    "(invalid_iff, scope_invalid_named). Tie: the real object.LookupResourceScope and validation.Validator.Validate on generated object+CRD sets "
+    "(domain scope).")
+PROPS["C11"]["rule"] = PROPS["C11"]["rule"] + (
+    " scope: the real LookupResourceScope + Validator{Mapper, Collector}.Validate on [object] ++ CRDs: one CRD with every combination of "
+    "spec.group (absent, null, \"\", number, matching, other) x spec.names/kind (absent, null, not a map, kind absent/null/\"\"/number/matching/other) x "
+    "spec.versions (absent, null, not a list, empty, 1-2 items from {null, string, {}, name null/number/v1/v2}) x spec.scope (absent, null, "
+    "Namespaced, Cluster, other, number) (10368 cells); every ordered pair of 30 representative CRDs x 6 mapper answers (namespaced, root, three "
+    "NoMatch forms, other error) x namespace set/empty; the object grid (group, version, kind \"\", name \"\", namespace \"\") x mapper answer x 9 CRD "
+    "sets; the CRD objects themselves (name, namespace, what the mapper says about the CRD type); 16000 (quick) / 400000 (thorough) random mixes "
+    "of 0-3 CRDs incl. look-alikes that are not CRDs, an object under test that is itself a CRD, and a real meta.DefaultRESTMapper. Compared: "
+    "scope class / error (type + field path), Collector.Errors (id + classes, in order), InvalidIds.")
+PROPS["C06"]["rule"] += (
+    " RESTMapper reset: optional input field crd (object i is a CustomResourceDefinition id); the task then gets a counting "
+    "meta.ResettableRESTMapper and the number of Reset() calls once the task result has been delivered (or when the phase is found not to have "
+    "ended) is compared with Wait.resets: 1-2 objects x 8 actuation records x CRD or not x 6 ways of (not) ending the phase, and half of the random phases.")
+PROPS["C04"]["level_text"] += (
+    " CRD phases (Props/C04S.lean mapper_reset_iff, no_reset_otherwise, for every phase and operation sequence): the wait task resets the "
+    "RESTMapper exactly once iff the phase has ended and contains a CRD that was not skipped (by the actuation table the phase started with), "
+    "never while it runs and never otherwise — tied to WaitTask.updateRESTMapper by counting Reset() calls in domain wait.")
